@@ -165,6 +165,11 @@ impl Prop for C02 {
                 r.threads = 2;
                 // heights spelled plainly, zero-padded (`printf %07d`) or with a leading plus sign
                 r.height_style = ((s.unwrap_or(1) + e.unwrap_or(0).min(1000)) % 3) as u8;
+                // marker chains are consistent: --verify goes with every range that starts above the first block
+                // (block 0 of a marker chain is not the coin's genesis block)
+                if s.map(|x| x >= 1).unwrap_or(false) && (t + s.unwrap_or(0)) % 2 == 1 {
+                    r.verify = true;
+                }
                 if cb == "csvdump" || cb == "opreturn" {
                     let whole = RunSpec::new(cb);
                     scn.runs = vec![whole, r];
